@@ -16,7 +16,7 @@ MEM_LIMIT = 24 << 30
 class Job:
     def __init__(self, name, cfile, entry, route='LF', target=None, source=None, defines=(), enforce=None,
                  replace=(), loops=False, unwind=None, flags=(), checks=None, timeout=300, bounded=False,
-                 bound_text=None, inputs=(), nloops=None, solver=None, must_have=()):
+                 bound_text=None, inputs=(), nloops=None, solver=None, must_have=(), twin=True):
         self.name = name            # unique job id
         self.cfile = cfile
         self.entry = entry
@@ -36,7 +36,8 @@ class Job:
         self.inputs = list(inputs)  # names of harness input globals (IN_*) to pull from a trace
         self.nloops = nloops        # expected number of loops under contract (presence scan)
         self.solver = solver
-        self.must_have = list(must_have)  # substrings of obligation descriptions that must exist
+        self.must_have = list(must_have)
+        self.twin = twin            # run the vacuity twin (families of case-split jobs keep one twin per sub-family)  # substrings of obligation descriptions that must exist
 
 
 def _limits():
@@ -126,7 +127,8 @@ def run_job(job, workdir, vacuity=False, trace=True):
         cmd += ['--sat-solver', job.solver]
     cmd += job.flags
     cmds.append(' '.join(cmd))
-    rc, out, err, dt = _run(cmd, job.timeout, outp)
+    cap = int(os.environ.get('VERIF_TIMEOUT_CAP', '0') or 0)
+    rc, out, err, dt = _run(cmd, min(job.timeout, cap) if cap else job.timeout, outp)
     res['seconds'] += dt
     if rc is None:
         res['reason'] = 'cbmc timeout (%ds)' % job.timeout
@@ -187,8 +189,10 @@ def run_job(job, workdir, vacuity=False, trace=True):
         return res
     # presence scans
     if job.loops and job.nloops is not None:
-        steps = set(re.sub(r'\.\d+$', '', p['desc']) for p in res['props'] if 'loop_invariant_step' in p['id'])
         nl = len(set(p['desc'] for p in res['props'] if 'loop_invariant_step' in p['id']))
+        # `for(;;)` loops carry no source location: dfcc emits their base/step/unwinding checks as unnamed `<fn>.<k>` assertions (3 per loop)
+        unnamed = [p for p in res['props'] if re.fullmatch(r'\w+\.\d+', p['id']) and p['desc'] == 'assertion']
+        nl += len(unnamed) // 3
         if nl < job.nloops:
             res['reason'] = 'loop contract silently dropped: %d loops with invariant-step obligations, expected %d' % (nl, job.nloops)
             return res
